@@ -152,7 +152,9 @@ def info : P Info := fun ts => do
   let (a, ts) ← nat ts
   let (b, ts) ← nat ts
   let (c, ts) ← nat ts
-  pure ({ hostname := hostname, addr := addr, tcp := tcp, version := version, ver := (a, b, c) }, ts)
+  -- an `/info` answer without `broadcast_address` (and `http_port`) is written with the address ":0"
+  pure ({ hostname := hostname, addr := addr, tcp := tcp, version := version, ver := (a, b, c),
+          noBcast := addr.startsWith ":" }, ts)
 
 def lookupd : P Lookupd := fun ts => do
   let (addr, ts) ← str ts
@@ -172,6 +174,14 @@ def expect (tag : String) : P Unit
   | t :: r => if t == tag then some ((), r) else none
   | [] => none
 
+/-- One entry of the optional section `I <n> …`: `<lk> <topic> <answer /lookup> <answer /channels>`. -/
+def topicAns : P TopicAns := fun ts => do
+  let (lk, ts) ← str ts
+  let (t, ts) ← str ts
+  let (lo, ts) ← answer (counted (nullable "P" producer)) ts
+  let (ch, ts) ← answer (counted str) ts
+  pure ({ lk := lk, topic := t, lookup := lo, channels := ch }, ts)
+
 def world : P World := fun ts => do
   let (_, ts) ← expect "W" ts
   let (_, ts) ← expect "L" ts
@@ -180,7 +190,11 @@ def world : P World := fun ts => do
   let (as, ts) ← counted str ts
   let (_, ts) ← expect "N" ts
   let (ns, ts) ← counted nsqd ts
-  pure ({ lookupds := ls, nsqdAddrs := as, nsqds := ns }, ts)
+  match ts with
+  | "I" :: ts' =>
+    let (pt, ts'') ← counted topicAns ts'
+    pure ({ lookupds := ls, nsqdAddrs := as, nsqds := ns, perTopic := pt }, ts'')
+  | _ => pure ({ lookupds := ls, nsqdAddrs := as, nsqds := ns }, ts)
 
 def request : P Request
   | "topics" :: r => some (.topics, r)
@@ -189,6 +203,7 @@ def request : P Request
   | "nodes" :: r => some (.nodes, r)
   | "node" :: a :: r => some (.node a, r)
   | "counter" :: r => some (.counter, r)
+  | "inactive" :: r => some (.topicsInactive, r)
   | _ => none
 
 /-! ### Rendering -/
@@ -235,6 +250,8 @@ def renderBody : Body → String
       joinOr (sorted (t.channels.map (fun c =>
         e c.name ++ "~" ++ cs c.cnt ++ "~" ++ b01 c.paused ++ "~" ++ toString c.clients.length))) "+"))) ";" ++ "]"
   | .counter st => joinOr (sorted (st.map (fun kv => kv.1 ++ "=" ++ toString (Nsq.Model.Int64.wrap64 kv.2)))) ","
+  | .inactive m =>
+    "I[" ++ joinOr (m.map (fun kv => e kv.1 ++ "=" ++ joinOr (kv.2.map e) "+")) ";" ++ "]"
   | .none => "-"
 
 def renderView (v : View) : String :=
@@ -255,5 +272,69 @@ def viewLine (toks : List String) : String :=
       match view Fixes.all w req with
       | .error f => "PANIC " ++ faultSite f
       | .ok v => renderView v
+
+/-! ### `add …`: TopicStats.Add / ChannelStats.Add on reports given directly (stream `add`) -/
+
+def counters13 : P Counters := fun ts => do
+  let (l, ts) ← many int 13 ts
+  match l with
+  | [a, b, c, d, e', f, g, h, i, j, k, m, n] =>
+    pure ({ depth := a, memDepth := b, backendDepth := c, inFlight := d, deferred := e', requeue := f, timeout := g,
+            msgCount := h, delivery := i, zoneLocal := j, regionLocal := k, globalMsg := m, clientCount := n }, ts)
+  | _ => none
+
+def counters8 : P Counters := fun ts => do
+  let (l, ts) ← many int 8 ts
+  match l with
+  | [a, b, c, h, i, j, k, m] =>
+    pure ({ depth := a, memDepth := b, backendDepth := c, msgCount := h, delivery := i, zoneLocal := j,
+            regionLocal := k, globalMsg := m }, ts)
+  | _ => none
+
+def chanNodeTok : P ChanNode := fun ts => do
+  let (node, ts) ← str ts
+  let (host, ts) ← str ts
+  let (topic, ts) ← str ts
+  let (name, ts) ← str ts
+  let (paused, ts) ← bool ts
+  let (e2e, ts) ← bool ts
+  let (cnt, ts) ← counters13 ts
+  let (cl, ts) ← counted client ts
+  pure ({ node := node, hostname := host, topic := topic, name := name, cnt := cnt, paused := paused,
+          clients := cl.map (fun c => ⟨c.hostname, c.clientId, node⟩), e2e := e2e }, ts)
+
+def topicNodeTok : P TopicNode := fun ts => do
+  let (node, ts) ← str ts
+  let (host, ts) ← str ts
+  let (name, ts) ← str ts
+  let (paused, ts) ← bool ts
+  let (e2e, ts) ← bool ts
+  let (cnt, ts) ← counters8 ts
+  let (chs, ts) ← counted chanNodeTok ts
+  pure ({ node := node, hostname := host, name := name, cnt := cnt, paused := paused, channels := chs, e2e := e2e }, ts)
+
+def foldChan (fx : Fixes) : List ChanNode → ChanAgg → Except Fault ChanAgg
+  | [], c => .ok c
+  | a :: rest, c =>
+    match c.add fx a with
+    | .error e => .error e
+    | .ok c' => foldChan fx rest c'
+
+def addLine : List String → String
+  | "topic" :: name :: rest =>
+    (match counted topicNodeTok rest with
+     | none => "bad-op"
+     | some (reports, _) =>
+       match TopicAgg.addAll Fixes.all reports { name := name } with
+       | .error f => "PANIC " ++ faultSite f
+       | .ok t => "200 0 " ++ renderBody (.topic t))
+  | "channel" :: name :: rest =>
+    (match counted chanNodeTok rest with
+     | none => "bad-op"
+     | some (reports, _) =>
+       match foldChan Fixes.all reports { node := "", topic := "", name := name } with
+       | .error f => "PANIC " ++ faultSite f
+       | .ok c => "200 0 " ++ renderBody (.channel c))
+  | _ => "bad-op"
 
 end Nsq.Model.AggregateWire
